@@ -200,7 +200,8 @@ PROPS = {
                       "on the real key strings by prefix listing like the Go code; key templates, CreateRepo's single NoOverWrite Put, ValidateRepo's "
                       "classes and DeleteRepo's bundle options are discharged on facts regenerated from the sources on every run. The model is tied to "
                       "pkg/core by replaying, from the dumped metadata state, every operation of random multi-repository histories and comparing the "
-                      "full state DIFF grouped by owning repository (GetArchivePathComponents), plus ListBundles of every repository.",
+                      "full state DIFF grouped by owning repository (GetArchivePathComponents), plus ListBundles of every repository."
+                      " Round 2: C09_delete_crash_rerun (DeleteRepo killed at any store delete of its bundle phase and run again leaves nothing; invariant over the deletion discipline, order regenerated from delete.go); DeleteRepo crash sweeps and RenameRepo under one failing call are judged.",
         "level_note": "Trusted: Lean kernel, facts translator, harness (memstore = GCS semantics: atomic create-if-absent Put, Delete of a missing key "
                       "fails). Values are abstracted to the fields the operations read plus a hash of the rest. The frame clauses need repository names "
                       "without '/', which is all CreateRepo creates (validName_noSlash; necessity: C09_neg_frame_needs_noSlash); rename needs an unused "
@@ -300,7 +301,8 @@ PROPS = {
                       "templates, the label-name rule, the validation call site and the label store are facts regenerated from the Go "
                       "source on every run (C08_facts). The real pkg/core is run on the reference object store over random histories with "
                       "hostile names and prefixes and compared operation by operation (result class, resolved bundle rank, sorted listing, "
-                      "frame check from store snapshots) with the compiled model.",
+                      "frame check from store snapshots) with the compiled model."
+                      " Round 2: C08_list_race_sound (keys scanned and descriptors fetched in different states); listings under a failing descriptor read / a concurrent delete are judged.",
         "level_note": "Trusted: Lean kernel, facts translator, harness, memstore as the object-store contract (GCS semantics: overwrite put, "
                       "delete of a missing key = not found, prefix listing). Modelled, not verified: the Go code itself; YAML round-trip of the "
                       "descriptor is taken as the identity; paging / worker pool / per-batch sort only permute a listing and are abstracted "
@@ -363,7 +365,8 @@ PROPS = {
                       "sub-prefixes, each once, lexicographic, whatever the walk order), C16_paging_complete / C16_keysPrefix_paging (every page "
                       "size >= 1: following next from \"\" yields exactly the listing). The models are tied to localfs (afero memory FS and a real "
                       "directory) and to the harness reference store by replaying the same random histories on all of them and on the Lean models; "
-                      "races of 2..16 real goroutines are judged by the theorem's predicate.",
+                      "races of 2..16 real goroutines are judged by the theorem's predicate."
+                      " Round 2: C16_put_retry_exact (localfs.Put under any write-fault schedule and its retry policy: success means the exact bytes; Model/PutRetry) after two genuine defects were found and fixed (retry from a consumed source, PipeIO losing the write error).",
         "level_note": "Partial: the operating system / afero (O_EXCL atomicity, O_TRUNC, directory semantics) is modelled, not verified; a "
                       "non-exclusive Put is not atomic on a real file system (concurrent readers may see a truncated file) and is outside the theorems; "
                       "keys are clean relative paths. Trusted: Lean kernel, harness, driver, facts translator.",
@@ -480,7 +483,8 @@ PROPS = {
         "lean_modules": ["DatamonVerif.Props.C01", "DatamonVerif.Props.C01Seq", "DatamonVerif.Props.C01Put", "DatamonVerif.Props.C01Delete"],
         "timeout_quick": 900, "timeout_thorough": 3400,
         "level_text": "Proof: theorems about the model of the cafs writer, Put and the three readers (all contents, leaf sizes, write "
-                      "chunkings, read programs); model tied to pkg/cafs by differential runs of Put/Read/ReadAt/WriteTo on memstore.",
+                      "chunkings, read programs); model tied to pkg/cafs by differential runs of Put/Read/ReadAt/WriteTo on memstore."
+                      " Round 2: the sequential Read(data) state machine itself (Model/CafsSeq: idx, open reader, readSoFar, lastChunk; blob-reader behaviour RMode as a parameter) with C01_readSeq_roundtrip / C01_put_then_readSeq for ANY buffer sizes, compared call by call; Fs.Delete and crash remnants in the model (C01_delete_then_put, Compat).",
         "level_note": "Trusted: Lean kernel, harness+driver, memstore as the store contract, the Lean BLAKE2b (tested against Go). "
                       "Not in the model: buffer pool, LRU pinning, prefetch goroutines, WriteTo parallelism (exercised by the harness only).",
         "trusted": CAFS_TRUSTED,
@@ -506,7 +510,8 @@ PROPS = {
         "timeout_quick": 900, "timeout_thorough": 3400,
         "level_text": "Proof: for EVERY store content (any fault), a verified read returns an error or exactly the stored bytes, under the "
                       "no-collision hypothesis on the pairs hashed. The implementation's outcome under sampled single-blob faults is judged "
-                      "by the same predicate (error or exact bytes) evaluated in Lean.",
+                      "by the same predicate (error or exact bytes) evaluated in Lean."
+                      " Round 2: C03_readSeq_sound (the Read state machine on an arbitrary store: EOF reached => exact content), call-by-call comparison on damaged stores; single-file download and a retrying destination are judged as well.",
         "level_note": "Trusted: Lean kernel, harness+driver, memstore. Faults are sampled in the correspondence run, universal in the theorem.",
         "trusted": CAFS_TRUSTED,
     },
@@ -517,7 +522,8 @@ PROPS = {
         "level_text": "Proof: theorems about the model of bundle upload/download metadata flow (entries one-to-one with the uploaded "
                       "files, index-file batching and reassembly by position for every entries-per-file and arrival order, filtered and "
                       "single-file downloads, repeated and missing keys), over an abstract content store (C01/C02). Tied to pkg/core by "
-                      "differential uploads/downloads on memstore and localfs with entries-per-file 1,2,3,7,1000.",
+                      "differential uploads/downloads on memstore and localfs with entries-per-file 1,2,3,7,1000."
+                      " Round 2: C04_has_fault_same / C04_get_fault_fails (the source calls of an upload made explicit); the same upload with one transiently failing store call is judged (error or same entries).",
         "level_note": "Trusted: Lean kernel, harness+driver, memstore, yaml.v2 for descriptor encoding (names with YAML-significant "
                       "characters are exercised, not modelled). Goroutine fan-out is modelled as an arbitrary arrival order.",
         "trusted": CAFS_TRUSTED + ["gopkg.in/yaml.v2 round-trips bundle entries"],
